@@ -3,7 +3,7 @@
 From Coq Require Import List NArith ZArith Bool.
 From Abasic Require Import Model.Bytes Model.Num Model.Token Model.Data Model.Lexer Gen.Tables
      Model.State Model.Eval Model.Interp Proofs.Monad Proofs.Frames Proofs.StoreProofs Proofs.Caps
-     Model.RustInt Gen.ArraysRs Proofs.ArraysTie.
+     Model.RustInt Gen.ArraysRs Gen.ProgramEvents Proofs.ArraysTie.
 Import ListNotations.
 Local Open Scope nat_scope.
 
@@ -122,6 +122,26 @@ Example C16_code_examples :
   rs_dimarray_get_linear_index [4294967296; 4294967296; 0]%N [1; 1; 0]%N = UPanic.
 Proof. vm_compute. repeat split. Qed.
 
+(* WHEN the caps are tested (program.rs, regenerated on every run as the order of events in the three methods that
+   test a cap: Gen/ProgramEvents.v).  The model's start_loop / gosub_line_number / push_function_call (Model/State.v)
+   do the same things in the same order: FOR forgets the old loop of its variable BEFORE testing the loop cap (so
+   re-entering a FOR with 32 loops open is no overflow), GOSUB tests the frame cap before it jumps (so the error is
+   located at the GOSUB), a user-function call tests the SAME frame cap before pushing; all three compare with
+   `== STACK_LIMIT` and fail with StackOverflow. *)
+Theorem C16_code_cap_order :
+  program_events =
+  [("start_loop", ["forget-loop"; "cap-test:loop_stack==STACK_LIMIT:StackOverflow"; "push:loop_stack"; "set-variable"]);
+   ("gosub_line_number", ["cap-test:stack==STACK_LIMIT:StackOverflow"; "goto"; "push:stack"]);
+   ("push_function_call_onto_stack_and_goto_it", ["cap-test:stack==STACK_LIMIT:StackOverflow"; "push:stack"; "set-location"])]%string.
+Proof. reflexivity. Qed.
+(* the same facts on the model, by unfolding: which test comes first *)
+Theorem C16_model_cap_order : forall sym a b c n name bs s,
+  (forall u s1, remove_loop_with_name sym s = (Ok u, s1) -> length (loops s1) = stack_limit ->
+     start_loop sym a b c s = (Err EStackOverflow None, s1)) /\
+  (length (stack s) = stack_limit -> gosub_line_number n s = (Err EStackOverflow None, s)) /\
+  (length (stack s) = stack_limit -> push_function_call name bs s = (Err EStackOverflow None, s)).
+Proof. exact model_cap_order. Qed.
+
 Print Assumptions C16_inv.
 Print Assumptions C16_step.
 Print Assumptions C16_statement.
@@ -139,3 +159,5 @@ Print Assumptions C16_code_created_shape.
 Print Assumptions C16_code_index.
 Print Assumptions C16_code_index_in_cells.
 Print Assumptions C16_code_index_every_state.
+Print Assumptions C16_code_cap_order.
+Print Assumptions C16_model_cap_order.
